@@ -38,6 +38,23 @@ fn exec_cli_threads(j: &J) -> Result<RunOut, String> {
             ));
         }
     }
+    // ... and where the files of an earlier, longer run of the same kind of structure lie
+    if reference.code == Some(0) && sc.valid_args() && sc.steps.unwrap_or(100) <= 1000 {
+        let mut st = sc.clone();
+        st.fault = "stale-earlier-result".into();
+        let r = cliproc::run_cli(&st)?;
+        out.count("fault.F-stale(the result of an earlier, longer run lay at the output path)", 1);
+        if r.code != reference.code || r.json != reference.json || r.svg != reference.svg {
+            out.violate(Violation::new(
+                "cli-output-depends-on-existing-files",
+                1,
+                format!(
+                    "with the result of an earlier, longer run already at the --outfile path the binary left other bytes behind than in an empty directory (final score {:?} vs {:?}); argv {:?}",
+                    r.final_score_text, reference.final_score_text, r.argv
+                ),
+            ));
+        }
+    }
     for (k, t) in [1u64, 2, 4, 16].iter().enumerate() {
         sc.threads = *t;
         let r = cliproc::run_cli(&sc)?;
